@@ -283,3 +283,16 @@ Theorem C09_source_cs_read_status_is_the_models : forall rf rp fo po k sx m h, k
     match Slice.cs_read false None sx with Ok _ => st = SBDF_OK | Err e => st = e end.
 Proof. exact cs_read_status_is_the_models. Qed.
 Print Assumptions C09_source_cs_read_status_is_the_models.
+
+(* ... and one level up: sbdf_ts_read with ANY column subset returns - no allocation failing - exactly the status of the L1
+   model's ts_read (Slice.v) with that subset, on every byte stream whose selected columns hold no bit arrays: the framing
+   statuses above, then the status of the first column that cannot be read (every status of the column-slice reader) or
+   skipped (those of the model's cs_skip). *)
+Theorem C09_source_ts_read_status_is_the_models : forall rf rp fo po k sx m (h : ImpFactsCells.heap) tmb n sub, k < 0 -> Forall byte sx -> 0 <= n <= 715827882 ->
+  cell_get h tmb 1 = Some (VInt n) -> flags_in n sub m ->
+  (forall s1 s2, sec_read sx = Ok (3, s1) -> read_int32 false s1 = Ok (n, s2) -> colsf_nobit sub (Z.to_nat n) 0 s2) ->
+  exists f0, forall f, (f0 <= f)%nat -> exists st fin,
+    callC prog_env f prog_sbdf_ts_read [VPtr rf fo; VCell tmb 0; sv sub; VPtr rp po] m k sx h = OReturn (VInt st) fin /\
+    match Slice.ts_read false None n (msub sub 0) sx with Ok _ => st = SBDF_OK | Err e => st = e end.
+Proof. exact ts_read_status_is_the_models. Qed.
+Print Assumptions C09_source_ts_read_status_is_the_models.
